@@ -147,11 +147,36 @@ def run_e2e(chk):
     return len(cases)
 
 
+def gen_long(chk, n):
+    """long names (around and above 64 bytes, the size where an implementation might switch
+    buffers) matched one after the other in ONE process, with patterns that end in wildcards:
+    any state kept between calls shows as a disagreement with the (stateless) model"""
+    rng = chk.rng
+    def name():
+        k = rng.choice([62, 63, 64, 65, 70, 96, 128, 140])
+        segs = []
+        left = k
+        while left > 0:
+            m = min(left, rng.choice([5, 17, 40, 64, 70]))
+            segs.append(rng.choice("abAB") * m)
+            left -= m + 1
+        return "/".join(segs)
+    pats = ["%", "%%", "%/%", "*%", "%*", "*/%", "%/%/%", "a%", "%a", "%/a%", "*a/%", "%/%%", "A%", "%b%"]
+    cases = []
+    for _ in range(n):
+        t = name()
+        pt = rng.choice(pats)
+        if rng.random() < 0.3:
+            pt = t[:rng.randint(1, 8)] + rng.choice(["%", "%/%", "*"])
+        cases.append((pt, t))
+    return cases
+
+
 def run(chk):
     L = 7
     nrand = 1500 if chk.tier == "quick" else 20000
     # ---- implementation side
-    rand = gen_random(chk, nrand)
+    rand = gen_random(chk, nrand) + gen_long(chk, 400 if chk.tier == "quick" else 4000)
     refs = ["", "a", "a/", "/", "x/y", "INBOX", "inbox/", "%", "*", "a%", "%/", "a*/", "W%/", "*/b"]
     canon_cases = [(r, p) for r in refs for p in ["", "*", "%", "/a", "a/*", "b%", "INBOX", "in*"]]
     names_sets = [["INBOX", "Sent", "Drafts", "a", "a/b", "a/b/c", "B", "x y"], ["INBOX"], ["INBOX", "in", "inb/ox", "*lit"]]
@@ -165,6 +190,8 @@ def run(chk):
     grid_names = ["INBOX", "a", "a/a", "a/a/a", "aa", "/a", "a/", "b", "a/b"]
     grid_cases = [(r, p, grid_names) for r in grid for p in grid]          # 85 x 85 = 7225 (reference, pattern) pairs, exhaustive up to length 3
     filt_cases = filt_cases + grid_cases
+    longnames = ["INBOX", "a" * 70 + "/2024", "b" * 64, "B" * 65 + "/x/" + "a" * 66, "a" * 63, "a" * 128 + "/" + "b" * 5]
+    filt_cases += [(r, pt, longnames) for r in ["", "a" * 70 + "/"] for pt in ["%", "%%", "%/%", "*", "*/%", "a%", "%/%/%"]]
     ops = [
         {"op": "enum_match", "alpha": ALPHA, "L": L},
         {"op": "batch", "fn": "MatchWildcard", "cases": [{"a": [C.latin(t.encode("latin-1") if isinstance(t, str) else t), C.latin(p)]} for (p, t) in rand]},
@@ -259,7 +286,9 @@ def run(chk):
                 chk.notes.append("domain edge (non-ASCII bytes, outside the stated model domain): %r" % (cases[i],))
                 continue
             chk.violation("%s: implementation result %r differs from the model (proved equal to the RFC relation) on %r" % (name, impl[i], cases[i]),
-                          {"suite": name, "case": cases[i], "impl": str(impl[i])})
+                          {"suite": name, "case": cases[i], "impl": str(impl[i]),
+                           # the calls made just before in the same process (a stateful implementation needs them to reproduce)
+                           "preceding_calls": [list(c) for c in cases[max(0, i - 6):i]] if name == "rand_diff" else []})
     ne2e = run_e2e(chk)
     chk.cov["evaluations"] += ne2e
     chk.cov["disagreements_checked"] = nd + chk.cov.get("e2e_disagreements", 0)
@@ -300,7 +329,8 @@ def replay(path):
         return 0
     if d.get("suite") == "rand_diff":
         p, t = d["case"]
-        print(C.run_ops([{"op": "call", "fn": "MatchWildcard", "a": [t, p]}]))
+        seq = [tuple(c) for c in d.get("preceding_calls", [])] + [(p, t)]
+        print(C.run_ops([{"op": "batch", "fn": "MatchWildcard", "cases": [{"a": [C.latin(tt), C.latin(pp)]} for (pp, tt) in seq]}]))
     else:
         print(json.dumps(d, indent=1))
     return 0
